@@ -21,7 +21,10 @@ def main():
         return 1
     if not check.build([fl]):
         return 2
-    r = subprocess.run([check.worker_bin(fl), '--replay', path], cwd=ROOT)
+    env = dict(os.environ)
+    if fl == 'tsan':
+        env['TSAN_OPTIONS'] = env.get('TSAN_OPTIONS', 'symbolize=1 suppress_equal_stacks=0 suppress_equal_addresses=0 halt_on_error=0 exitcode=0 report_signal_unsafe=0')
+    r = subprocess.run([check.worker_bin(fl), '--replay', path], cwd=ROOT, env=env)
     if r.returncode in (77, 78) or r.returncode < 0:
         print('VIOLATION property=%s replay=%s' % (doc.get('property'), path))
         print('  the replayed run died (rc=%d): %s' % (r.returncode, doc.get('detail', '')))
